@@ -140,126 +140,164 @@ func c16VRes(user bbs.UUserID, exp int, cli string, eml string, err error) []str
 	return []string{"0", "1", poolIdx(c16Users, string(user)), oi(int64(exp)), poolIdx(c16Cli, cli), poolIdx(c16Eml, eml)}
 }
 
-func init() {
-	var env *bbsEnv
-	var router *gin.Engine
-	do := func(method, path, auth string, body interface{}) (int, map[string]interface{}) {
-		b, _ := json.Marshal(body)
-		req := httptest.NewRequest(method, path, bytes.NewReader(b))
-		req.Header.Set("Content-Type", "application/json")
-		req.Header.Set("Host", "localhost")
-		req.Header.Set("X-Forwarded-For", "127.0.0.1")
-		if auth != "" {
-			req.Header.Set("Authorization", "bearer "+auth)
-		}
-		w := httptest.NewRecorder()
-		router.ServeHTTP(w, req)
-		out := map[string]interface{}{}
-		_ = json.Unmarshal(w.Body.Bytes(), &out)
-		return w.Code, out
+// c16State: one driver process. withEnv = scratch BBSHOME + shared memory (needed by the e-mail routes).
+type c16State struct {
+	env    *bbsEnv
+	router *gin.Engine
+	cfg    bool // the sacrificial "C16cfg" process: may run the real initgin.InitAllConfig
+	saved  c16Saved
+}
+
+func (s *c16State) do(method, path, auth string, body interface{}) (int, map[string]interface{}) {
+	b, _ := json.Marshal(body)
+	req := httptest.NewRequest(method, path, bytes.NewReader(b))
+	req.Header.Set("Content-Type", "application/json")
+	req.Header.Set("Host", "localhost")
+	req.Header.Set("X-Forwarded-For", "127.0.0.1")
+	if auth != "" {
+		req.Header.Set("Authorization", "bearer "+auth)
 	}
-	register("C16", &propDriver{
-		setup: func() {
-			env = newBBSEnv("api", true)
-			gin.SetMode(gin.ReleaseMode)
-			router = gin.New()
-			router.POST("/whoami", func(c *gin.Context) {
-				params := &struct{}{}
-				api.LoginRequiredJSON(func(remoteAddr string, userID bbs.UUserID, params interface{}, c *gin.Context) (interface{}, error) {
-					return map[string]string{"user": string(userID)}, nil
-				}, params, c)
-			})
-			router.POST("/whoami/:uid", func(c *gin.Context) {
-				params := &struct{}{}
-				path := &struct {
-					UID string `uri:"uid"`
-				}{}
-				api.LoginRequiredPathJSON(func(remoteAddr string, userID bbs.UUserID, params interface{}, path interface{}, c *gin.Context) (interface{}, error) {
-					return map[string]string{"user": string(userID)}, nil
-				}, params, path, c)
-			})
-			router.POST(api.REFRESH_R, api.RefreshWrapper)
-			router.POST(api.GET_TOKEN_INFO_R, api.GetTokenInfoWrapper)
-			router.POST(api.CHANGE_EMAIL_R, api.ChangeEmailWrapper)
-			router.POST(api.SET_ID_EMAIL_R, api.SetIDEmailWrapper)
-		},
-		teardown: func() { env.close() },
-		run: func(args [][]string) []string {
-			now := int64(types.NowTS())
-			nows := oi(now)
-			switch ai(args[0][0]) {
-			case 1: // VerifyJwt(raw, check)
-				raw := c16Forge(args[2], now)
-				u, e, cl, err := api.VerifyJwt(raw, ai(args[1][0]) != 0)
-				return append(c16VRes(u, e, cl, "", err), nows)
-			case 2:
-				raw := c16Forge(args[2], now)
-				u, e, cl, err := api.VerifyRefreshJwt(raw)
-				return append(c16VRes(u, e, cl, "", err), nows)
-			case 3:
-				raw := c16Forge(args[2], now)
-				u, e, cl, em, err := api.VerifyEmailJwt(raw, api.EmailTokenContext(c16Ctx[ai(args[1][0])]))
-				return append(c16VRes(u, e, cl, em, err), nows)
-			case 4: // effective user of a login-required request (both wrappers must agree)
-				raw := c16Forge(args[2], now)
-				code, out := do("POST", "/whoami", raw, map[string]string{})
-				code2, out2 := do("POST", "/whoami/x", raw, map[string]string{})
-				u, _ := out["user"].(string)
-				u2, _ := out2["user"].(string)
-				if code != 200 || code2 != 200 || u != u2 {
-					return []string{"0", "-1", nows}
-				}
-				return []string{"0", poolIdx(c16Users, u), nows}
-			case 5: // /refresh
-				a := c16Forge(args[2], now)
-				r := c16Forge(args[3], now)
-				code, out := do("POST", api.REFRESH_R, a, map[string]string{"client_info": c16Cli[ai(args[1][0])], "refresh_token": r})
-				if code != 200 {
-					return []string{"0", "0", nows}
-				}
-				u, _ := out["user_id"].(string)
-				// the issued tokens must be for that user
-				at, _ := out["access_token"].(string)
-				rt, _ := out["refresh_token"].(string)
-				u1, _, _, e1 := api.VerifyJwt(at, true)
-				u2, _, _, e2 := api.VerifyRefreshJwt(rt)
-				if e1 != nil || e2 != nil || string(u1) != u || string(u2) != u {
-					return []string{"0", "1", "-2", nows}
-				}
-				return []string{"0", "1", poolIdx(c16Users, u), nows}
-			case 6: // /token/info
-				a := c16Forge(args[2], now)
-				b := c16Forge(args[3], now)
-				code, out := do("POST", api.GET_TOKEN_INFO_R, a, map[string]string{"token": b})
-				if code != 200 {
-					return []string{"0", "0", nows}
-				}
-				u, _ := out["user_id"].(string)
-				return []string{"0", "1", poolIdx(c16Users, u), nows}
-			case 7: // change e-mail (route 0) / set id e-mail (route 1)
-				a := c16Forge(args[2], now)
-				e := c16Forge(args[3], now)
-				pathUser := c16Users[ai(args[1][0])]
-				var code int
-				var out map[string]interface{}
-				if ai(args[1][1]) == 0 {
-					code, out = do("POST", strings.Replace(api.CHANGE_EMAIL_R, ":uid", pathUser, 1), a, map[string]string{"email_token": e})
-				} else {
-					code, out = do("POST", strings.Replace(api.SET_ID_EMAIL_R, ":uid", pathUser, 1), a, map[string]interface{}{"email_token": e, "is_set": true})
-				}
-				if code == 200 {
-					em, _ := out["email"].(string)
-					return []string{"0", "1", poolIdx(c16Eml, em), nows}
-				}
-				msg, _ := out["Msg"].(string)
-				if code == 403 || code == 401 {
-					return []string{"0", "0", nows}
-				}
-				_ = msg
-				return []string{"0", "1", "-1", nows} // passed the token guard, failed later (e.g. e-mail not acceptable as id e-mail)
-			}
+	w := httptest.NewRecorder()
+	s.router.ServeHTTP(w, req)
+	out := map[string]interface{}{}
+	_ = json.Unmarshal(w.Body.Bytes(), &out)
+	return w.Code, out
+}
+
+func (s *c16State) setup(withEnv bool) {
+	if withEnv {
+		s.env = newBBSEnv("api", true)
+	}
+	s.saved = c16Save()
+	gin.SetMode(gin.ReleaseMode)
+	router := gin.New()
+	s.router = router
+	router.POST("/whoami", func(c *gin.Context) {
+		params := &struct{}{}
+		api.LoginRequiredJSON(func(remoteAddr string, userID bbs.UUserID, params interface{}, c *gin.Context) (interface{}, error) {
+			return map[string]string{"user": string(userID)}, nil
+		}, params, c)
+	})
+	router.POST("/whoami/:uid", func(c *gin.Context) {
+		params := &struct{}{}
+		path := &struct {
+			UID string `uri:"uid"`
+		}{}
+		api.LoginRequiredPathJSON(func(remoteAddr string, userID bbs.UUserID, params interface{}, path interface{}, c *gin.Context) (interface{}, error) {
+			return map[string]string{"user": string(userID)}, nil
+		}, params, path, c)
+	})
+	router.POST(api.REFRESH_R, api.RefreshWrapper)
+	router.POST(api.GET_TOKEN_INFO_R, api.GetTokenInfoWrapper)
+	router.POST(api.CHANGE_EMAIL_R, api.ChangeEmailWrapper)
+	router.POST(api.SET_ID_EMAIL_R, api.SetIDEmailWrapper)
+}
+
+func (s *c16State) teardown() {
+	c16Restore(s.saved)
+	if s.env != nil {
+		s.env.close()
+	}
+}
+
+// whoami: effective user of a login-required request (both wrappers must agree); "-1" otherwise
+func (s *c16State) whoami(raw string) string {
+	code, out := s.do("POST", "/whoami", raw, map[string]string{})
+	code2, out2 := s.do("POST", "/whoami/x", raw, map[string]string{})
+	u, _ := out["user"].(string)
+	u2, _ := out2["user"].(string)
+	if code != 200 || code2 != 200 || u != u2 {
+		return "-1"
+	}
+	return poolIdx(c16Users, u)
+}
+
+func (s *c16State) run(args [][]string) []string {
+	now := int64(types.NowTS())
+	nows := oi(now)
+	switch ai(args[0][0]) {
+	case 1: // VerifyJwt(raw, check)
+		raw := c16Forge(args[2], now)
+		u, e, cl, err := api.VerifyJwt(raw, ai(args[1][0]) != 0)
+		return append(c16VRes(u, e, cl, "", err), nows)
+	case 2:
+		raw := c16Forge(args[2], now)
+		u, e, cl, err := api.VerifyRefreshJwt(raw)
+		return append(c16VRes(u, e, cl, "", err), nows)
+	case 3:
+		raw := c16Forge(args[2], now)
+		u, e, cl, em, err := api.VerifyEmailJwt(raw, api.EmailTokenContext(c16Ctx[ai(args[1][0])]))
+		return append(c16VRes(u, e, cl, em, err), nows)
+	case 4: // effective user of a login-required request (both wrappers must agree)
+		raw := c16Forge(args[2], now)
+		return []string{"0", s.whoami(raw), nows}
+	case 5: // /refresh
+		a := c16Forge(args[2], now)
+		r := c16Forge(args[3], now)
+		code, out := s.do("POST", api.REFRESH_R, a, map[string]string{"client_info": c16Cli[ai(args[1][0])], "refresh_token": r})
+		if code != 200 {
+			return []string{"0", "0", nows}
+		}
+		u, _ := out["user_id"].(string)
+		// the issued tokens must be for that user
+		at, _ := out["access_token"].(string)
+		rt, _ := out["refresh_token"].(string)
+		u1, _, _, e1 := api.VerifyJwt(at, true)
+		u2, _, _, e2 := api.VerifyRefreshJwt(rt)
+		if e1 != nil || e2 != nil || string(u1) != u || string(u2) != u {
+			return []string{"0", "1", "-2", nows}
+		}
+		return []string{"0", "1", poolIdx(c16Users, u), nows}
+	case 6: // /token/info
+		a := c16Forge(args[2], now)
+		b := c16Forge(args[3], now)
+		code, out := s.do("POST", api.GET_TOKEN_INFO_R, a, map[string]string{"token": b})
+		if code != 200 {
+			return []string{"0", "0", nows}
+		}
+		u, _ := out["user_id"].(string)
+		return []string{"0", "1", poolIdx(c16Users, u), nows}
+	case 7: // change e-mail (route 0) / set id e-mail (route 1)
+		if s.env == nil {
 			return []string{"9"}
-		},
+		}
+		a := c16Forge(args[2], now)
+		e := c16Forge(args[3], now)
+		pathUser := c16Users[ai(args[1][0])]
+		var code int
+		var out map[string]interface{}
+		if ai(args[1][1]) == 0 {
+			code, out = s.do("POST", strings.Replace(api.CHANGE_EMAIL_R, ":uid", pathUser, 1), a, map[string]string{"email_token": e})
+		} else {
+			code, out = s.do("POST", strings.Replace(api.SET_ID_EMAIL_R, ":uid", pathUser, 1), a, map[string]interface{}{"email_token": e, "is_set": true})
+		}
+		if code == 200 {
+			em, _ := out["email"].(string)
+			return []string{"0", "1", poolIdx(c16Eml, em), nows}
+		}
+		if code == 403 || code == 401 {
+			return []string{"0", "0", nows}
+		}
+		return []string{"0", "1", "-1", nows} // passed the token guard, failed later (e.g. e-mail not acceptable as id e-mail)
+	case 8: // (re)configure package api in this process: [mode] | path bytes
+		return append(s.configure(ai(args[1][0]), string(ab(args[2]))), nows)
+	case 9: // a token ISSUED BY THE SERVER'S OWN functions presented to a verifier: [kind user cli eml ctx] | [verifier vctx]
+		return append(s.issued(args[1], args[2]), nows)
+	case 10: // the whole start-up configuration path, initgin.InitAllConfig(file), as main does — sacrificial process only
+		if !s.cfg {
+			return []string{"9"}
+		}
+		return append(s.configure(2, string(ab(args[1]))), nows)
+	}
+	return []string{"9"}
+}
+
+func init() {
+	s := &c16State{}
+	register("C16", &propDriver{
+		setup:    func() { s.setup(true) },
+		teardown: s.teardown,
+		run:      s.run,
 	})
 }
 
